@@ -254,9 +254,9 @@ func init() {
 		Expl: "Narrow structural clauses only: Inverse's product assertion is conditioned on IsZero(x) with the right polarity (x = 0 selects the constant 1, x ≠ 0 the product) and the flag is 1 − IsZero(x); Reduce forwards the never-reassigned constant RANGE_CHECK_NB_BITS ≥ 144; every reducing method of gl.Chip returns a hint output confined to [0,p) by a must-executed canonical range check. Plus the MulAcc accumulator discipline (MA) at every MulAcc site of the goldilocks package: the accumulator is owned and dead after the call, so the result does not depend on the R1CS builder re-using its storage. Plus honest hints (HB): every hint output stays below the bound of the range check its gadget applies, on every path of the hint body that returns nil, and no possibly-nil *big.Int is handed back (interval analysis of the hint bodies; inverse of zero must produce a value). Numerical exactness for all operands is not decided.",
 		Rule: "one obligation per clause / per reducing method of gl.Chip (enumerated from the method set) / per MulAcc site"})
 	registerProp(&propDef{ID: "C08", Rules: withState("C08", func(cx *Ctx) []Obligation {
-		return append(append(append(rulesC08(cx), rulesC08Widths(cx)...), rulesMagnitude(cx, "C08")...), rulesParamRelevance(cx, "C08", func(n string) bool { return strings.Contains(n, "Extension") })...)
+		return append(append(append(rulesC08(cx), rulesC08Widths(cx)...), rulesMagnitude(cx, "C08")...), append(rulesParamRelevance(cx, "C08", func(n string) bool { return strings.Contains(n, "Extension") }), ruleStrides(cx, "C08/SC/stride-cover", "goldilocks")...)...)
 	}), Floor: 43,
-		Expl: "Narrow structural clauses only: InverseExtension must-asserts IsZero(a[0])·IsZero(a[1]) == 0 (zero test over both coordinates); DivExtension passes its divisor itself to InverseExtension on every path; every quotient width that reaches the witnessed reduction (including from the extension API) admits a single result (W1) and the reduction/MulAdd hint discipline holds (R1). The field identities are not decided.",
+		Expl: "Narrow structural clauses only: InverseExtension must-asserts IsZero(a[0])·IsZero(a[1]) == 0 (zero test over both coordinates); DivExtension passes its divisor itself to InverseExtension on every path; every quotient width that reaches the witnessed reduction (including from the extension API) admits a single result (W1) and the reduction/MulAdd hint discipline holds (R1). The field identities are not decided. A loop of package goldilocks that walks an extension list in strides of k ≥ 2 under a guard protecting its highest offset hands the leftover on (SC).",
 		Rule: "one obligation per clause"})
 	registerProp(&propDef{ID: "C09", Rules: withState("C09", func(cx *Ctx) []Obligation {
 		obs := append(append(append(rulesC09(cx), rulesC09Function(cx)...), ruleSpongeOverwrite(cx)...), ruleSpongeSqueeze(cx)...)
